@@ -1,6 +1,6 @@
 """Per-property texts for MANIFEST.json."""
 
-HOOK_COMMITS = ["00e67b0", "4a80b6f", "07e0e43", "3d6248f"]
+HOOK_COMMITS = ["00e67b0", "4a80b6f", "07e0e43", "3d6248f", "77bcbc9", "e49b8f8"]
 
 NOT_APPLICABLE = {}
 
@@ -116,5 +116,17 @@ META = {
         "design_ref": "DESIGN.md section 4, C17",
         "note": _TB + "; hangs are bounded by a per-shard watchdog (inconclusive unless the case reproduces alone); one known finding (non-ASCII nested ReplaceSource column overflow)",
         "technique": "runtime monitoring: panic / crash / resource monitor over hostile inputs in debug and release builds",
+    },
+    "C18": {
+        "level": "three complementary runtime monitors: (1) real OS threads under a token-passing scheduler that switches only at the guarded schedule points inside the library (hook H3) and at callbacks of a user-defined child source; schedules enumerated by DFS with a pre-emption bound plus random walks (tens of thousands of schedules, distinct traces counted); every answer compared with a single-threaded copy, cache stores that replace a value counted by hook, logical deadlock detection through lock probes; the same under AddressSanitizer; (2) free-running 4-8 thread stress under ThreadSanitizer and AddressSanitizer; (3) small thread programs under Miri (data races, dangling borrows, deadlocks)",
+        "design_ref": "DESIGN.md section 4, C18",
+        "note": _TB + "; interleavings are explored at hook granularity with bounded pre-emptions, weak-memory effects only as far as TSan / Miri model them; trees with a CachedSource beneath a ReplaceSource are excluded because their sequential answers depend on the call history (known finding under C03)",
+        "technique": "runtime monitoring: controlled-schedule exploration of real threads + ThreadSanitizer / AddressSanitizer / Miri stress",
+    },
+    "C19": {
+        "level": "runtime monitors and sanitizers over rope programs (exhaustive small scope + random) and hostile source trees streamed with callbacks that retain every borrow until the outermost stream call returns: (1) debug build with precondition hooks (H4) immediately before each of the 14 unsafe operations, every site must be reached; (2) the same workload under AddressSanitizer with the hooks in count-only mode; (3) a Miri-sized variant under Miri (Stacked Borrows, bounds, UTF-8 validity, dangling references)",
+        "design_ref": "DESIGN.md section 4, C19",
+        "note": _TB + "; red-zone tools miss intra-object overflows, Miri covers small inputs only: a clean run is 'no report on these executions', not memory safety; the concurrent half of C19 (schedules of C18) runs under C18's AddressSanitizer / Miri stages",
+        "technique": "runtime monitoring: precondition assertions at hooked unsafe sites + AddressSanitizer + Miri",
     },
 }
